@@ -156,21 +156,21 @@ Section Line.
       else
         let bn := sc WSigned (tok toks 3) in
         let nb := if (4 <? n)%nat then sc WSigned (tok toks 4) else SLiteral F (NumI F 1%Z) in
-        if is_err bn || is_err nb then LErr LITERAL
-        else
-          let bnv := option_map wrap32 (lit_int bn) in
-          let nbv := option_map wrap32 (lit_int nb) in
-          match nbv, bnv with
-          | Some w, _ => if (w <? 1)%Z then LErr 4 (* NUMBITS *)
-                         else match bnv with
-                              | Some b => if (b <? 0)%Z then LErr 5 (* BITNUM *)
-                                          else if (63 <? b + w - 1)%Z then LErr 6 (* BITSIZE *)
-                                          else LOk (E_BIT (is ty "SBIT") (tok toks 2) bn nb)
-                              | None => LOk (E_BIT (is ty "SBIT") (tok toks 2) bn nb)
-                              end
-          | None, Some b => if (b <? 0)%Z then LErr 5 else LOk (E_BIT (is ty "SBIT") (tok toks 2) bn nb)
-          | None, None => LOk (E_BIT (is ty "SBIT") (tok toks 2) bn nb)
-          end
+        (* a parameter that is a malformed number is reported (LITERAL) and leaves
+           the value 0 behind; the range tests that follow can replace that error *)
+        let val s := if is_err s then Some 0%Z else option_map wrap32 (lit_int s) in
+        let lit_err := is_err bn || is_err nb in
+        let ok := if lit_err then LErr LITERAL else LOk (E_BIT (is ty "SBIT") (tok toks 2) bn nb) in
+        (* once an error is pending a field code is no longer looked up: it leaves 0 too *)
+        let nbv := if is_err bn then match nb with SField _ _ _ => Some 0%Z | _ => val nb end else val nb in
+        match nbv, val bn with
+        | Some w, Some b => if (w <? 1)%Z then LErr 4 (* NUMBITS *)
+                            else if (b <? 0)%Z then LErr 5 (* BITNUM *)
+                            else if (63 <? b + w - 1)%Z then LErr 6 (* BITSIZE *) else ok
+        | Some w, None => if (w <? 1)%Z then LErr 4 else ok
+        | None, Some b => if (b <? 0)%Z then LErr 5 else ok
+        | None, None => ok
+        end
     else if is ty "MULTIPLY" && allows T_MULTIPLY then yoke 0%nat
     else if is ty "DIVIDE" && allows T_DIVIDE then yoke 1%nat
     else if is ty "INDIR" && allows T_INDIR then yoke 2%nat
@@ -193,11 +193,11 @@ Section Line.
       else
         let c := sc WSigned (tok toks 4) in
         let p := if (5 <? n)%nat then sc WSigned (tok toks 5) else SLiteral F (NumI F 0%Z) in
-        if is_err c || is_err p then LErr LITERAL
-        else match option_map wrap32 (lit_int p) with
-             | Some v => if (v <? 0)%Z then LErr 23 (* MPLEXVAL *) else LOk (E_MPLEX (tok toks 2) (tok toks 3) c p)
-             | None => LOk (E_MPLEX (tok toks 2) (tok toks 3) c p)
-             end
+        let ok := if is_err c || is_err p then LErr LITERAL else LOk (E_MPLEX (tok toks 2) (tok toks 3) c p) in
+        match option_map wrap32 (lit_int p) with
+        | Some v => if (v <? 0)%Z then LErr 23 (* MPLEXVAL *) else ok
+        | None => ok
+        end
     else if is ty "WINDOW" && allows T_WINDOW then
       if (n <? 6)%nat then LErr N_TOK
       else match window_op (tok toks 4) with
